@@ -120,6 +120,9 @@ func (vc *FuncVC) analyzeFrame(fr *frame) {
 			}
 		}
 	}
+	for _, li := range fr.loops {
+		li.unroll = literalRangeLen(li)
+	}
 	// call ordinals per callee key, return ordinals, defer sites
 	fr.callOrd = map[ssa.Instruction]int{}
 	fr.callKeyOf = map[ssa.Instruction]string{}
@@ -293,39 +296,108 @@ func (vc *FuncVC) runFrame(fr *frame, s *State) {
 	// block order: reverse postorder over forward edges
 	order := vc.rpo()
 	in := map[edge][]*State{}
+	done := map[*ssa.BasicBlock]bool{}
 	for _, b := range order {
+		if done[b] {
+			continue
+		}
 		var st *State
 		if b.Index == 0 {
 			st = s
 		} else {
-			var ins []*State
-			for _, p := range b.Preds {
-				if li := vc.cur.loops[b]; li != nil && li.blocks[p] && b.Dominates(p) {
-					continue // back edge
-				}
-				ins = append(ins, in[edge{p.Index, b.Index}]...)
-			}
-			if len(ins) == 0 {
+			st = vc.incoming(b, in)
+			if st == nil {
 				continue
 			}
-			st = vc.merge(ins, fmt.Sprintf("B%d", b.Index))
 		}
-		vc.curBlock = b
-		if li := vc.cur.loops[b]; li != nil {
-			vc.loopHead(li, st)
+		if li := vc.cur.loops[b]; li != nil && li.unroll > 0 {
+			vc.unrollLoop(fr, li, st, in, order)
+			for lb := range li.blocks {
+				done[lb] = true
+			}
+			continue
 		}
-		outs := vc.execBlock(b, st)
-		for i, succ := range b.Succs {
-			if i >= len(outs) || outs[i] == nil {
-				continue
-			}
-			if li := vc.cur.loops[succ]; li != nil && li.blocks[b] && succ.Dominates(b) {
-				vc.loopBack(li, outs[i], b)
-				continue
-			}
-			in[edge{b.Index, succ.Index}] = append(in[edge{b.Index, succ.Index}], outs[i])
+		vc.stepBlock(fr, b, st, in, nil)
+	}
+}
+
+// incoming merges the states on the forward edges into b.
+func (vc *FuncVC) incoming(b *ssa.BasicBlock, in map[edge][]*State) *State {
+	var ins []*State
+	for _, p := range b.Preds {
+		if li := vc.cur.loops[b]; li != nil && li.blocks[p] && b.Dominates(p) {
+			continue // back edge
+		}
+		ins = append(ins, in[edge{p.Index, b.Index}]...)
+		delete(in, edge{p.Index, b.Index})
+	}
+	if len(ins) == 0 {
+		return nil
+	}
+	return vc.merge(ins, fmt.Sprintf("B%d", b.Index))
+}
+
+// stepBlock executes one block from state st and files the successor states. When unrolling
+// is non-nil, edges back to its header are collected there instead of being cut.
+func (vc *FuncVC) stepBlock(fr *frame, b *ssa.BasicBlock, st *State, in map[edge][]*State, unrolling *unrollCtx) {
+	vc.curBlock = b
+	if li := vc.cur.loops[b]; li != nil && (unrolling == nil || unrolling.li != li) {
+		vc.loopHead(li, st)
+	}
+	outs := vc.execBlock(b, st)
+	for i, succ := range b.Succs {
+		if i >= len(outs) || outs[i] == nil {
+			continue
+		}
+		if unrolling != nil && succ == unrolling.li.header {
+			unrolling.next = append(unrolling.next, outs[i])
 			vc.edgePC[edgeF{fr.fn, b.Index, succ.Index}] = outs[i].pc
+			continue
 		}
+		if li := vc.cur.loops[succ]; li != nil && li.blocks[b] && succ.Dominates(b) {
+			vc.loopBack(li, outs[i], b)
+			continue
+		}
+		in[edge{b.Index, succ.Index}] = append(in[edge{b.Index, succ.Index}], outs[i])
+		vc.edgePC[edgeF{fr.fn, b.Index, succ.Index}] = outs[i].pc
+	}
+}
+
+type unrollCtx struct {
+	li   *loopInfo
+	next []*State
+}
+
+// unrollLoop executes a loop whose trip count is a compile-time constant (a range over a slice
+// literal) exactly: li.unroll+1 passes over its blocks, no invariant, no havoc.
+func (vc *FuncVC) unrollLoop(fr *frame, li *loopInfo, st *State, in map[edge][]*State, order []*ssa.BasicBlock) {
+	cur := st
+	for pass := 0; pass <= li.unroll+1 && cur != nil; pass++ {
+		ctx := &unrollCtx{li: li}
+		for _, b := range order {
+			if !li.blocks[b] {
+				continue
+			}
+			var bs *State
+			if b == li.header {
+				bs = cur
+			} else {
+				bs = vc.incoming(b, in)
+				if bs == nil {
+					continue
+				}
+			}
+			vc.stepBlock(fr, b, bs, in, ctx)
+		}
+		if len(ctx.next) == 0 {
+			cur = nil
+		} else {
+			cur = vc.merge(ctx.next, fmt.Sprintf("unroll%d_%d", li.ord, pass))
+		}
+	}
+	if cur != nil && !vc.dry {
+		// more iterations than the literal has elements: impossible
+		vc.oblige("unroll", fmt.Sprintf("loop%d/unroll-complete", li.ord), "the literal range loop ends after its constant number of iterations", li.pos, cur.pc, tFalse)
 	}
 }
 
@@ -1608,4 +1680,61 @@ func (vc *FuncVC) frameCheck(s *State, pos token.Pos, n int) {
 		init := vc.get(vc.init, k, cur.Sort)
 		vc.oblige("frame", fmt.Sprintf("frame@return#%d:%s", n, k), "unchanged "+k+" (not in modifies)", pos, s.pc, eq(cur, init))
 	}
+}
+
+// literalRangeLen returns N>0 if the loop is "for ... := range <slice literal of N elements>"
+// (the ranged value is a full slice of a [N]T array allocated for a composite literal), else 0.
+func literalRangeLen(li *loopInfo) int {
+	if li.header.Comment != "rangeindex.loop" {
+		return 0
+	}
+	// the header compares the index with len(x); find that len call's argument
+	for _, in := range li.header.Instrs {
+		bo, ok := in.(*ssa.BinOp)
+		if !ok {
+			continue
+		}
+		call, ok := bo.Y.(*ssa.Call)
+		if !ok {
+			continue
+		}
+		if b, ok := call.Call.Value.(*ssa.Builtin); !ok || b.Name() != "len" {
+			continue
+		}
+		v := call.Call.Args[0]
+		for {
+			switch x := v.(type) {
+			case *ssa.UnOp:
+				// load of a local that is stored exactly once
+				if a, ok := x.X.(*ssa.Alloc); ok {
+					var st *ssa.Store
+					n := 0
+					for _, r := range *a.Referrers() {
+						if s, ok := r.(*ssa.Store); ok && s.Addr == a {
+							st = s
+							n++
+						}
+					}
+					if n == 1 {
+						v = st.Val
+						continue
+					}
+				}
+				return 0
+			case *ssa.Slice:
+				if x.Low != nil || x.High != nil || x.Max != nil {
+					return 0
+				}
+				if a, ok := x.X.(*ssa.Alloc); ok && a.Comment == "slicelit" {
+					if at, ok := a.Type().Underlying().(*types.Pointer).Elem().Underlying().(*types.Array); ok && at.Len() <= 64 {
+						return int(at.Len())
+					}
+				}
+				return 0
+			default:
+				return 0
+			}
+		}
+	}
+	return 0
 }
